@@ -14,7 +14,6 @@ use crate::spec::{be16, bytes_eq};
 #[allow(unused_imports)]
 use crate::stubs;
 use crate::{check, nd, witness};
-use rl2tp::avp::AVP;
 use rl2tp::common::{DecodeError as DE, Reader, SliceReader};
 use rl2tp::{DataMessage, Message, ValidateReserved, ValidateUnused, ValidateVersion, ValidationOptions};
 
